@@ -36,6 +36,7 @@ float_of = z3.Function("float_of", Val, z3.RealSort())
 utf8_enc = z3.Function("utf8_enc", S, S)                     # str -> bytes (latin-1 carried string)
 utf8_ok = z3.Function("utf8_ok", S, z3.BoolSort())           # bytes decodable
 utf8_dec = z3.Function("utf8_dec", S, S)
+utf8_dec_lenient = z3.Function("utf8_dec_lenient", S, S, S)    # (errors mode, bytes) -> str
 isdigit_of = z3.Function("isdigit_of", S, z3.BoolSort())
 join_of = z3.Function("join_of", S, V.SeqVal, S)
 format_of = z3.Function("format_of", S, V.SeqVal, S)
@@ -291,7 +292,24 @@ def as_int(I, v, node, what="integer"):
     I.throw("TypeError", f"{what} must be an integer")
 
 
+def _namedtuple_seq(I, sv):
+    if V.ctor_name(sv) != "obj":
+        return None
+    cd = I.class_of(sv)
+    names = getattr(I.ctx, "namedtuple_fields", {}).get(cd.cid) if cd is not None else None
+    if names is None:
+        return None
+    return V.seq_of([I.get_field(sv, n)[0] for n in names])
+
+
 def seq_and_kind(I, v, node, allow=("list", "tuple")):
+    nt = _namedtuple_seq(I, z3.simplify(v))
+    if nt is not None:
+        return nt, "tuple"
+    return _seq_and_kind(I, v, node, allow)
+
+
+def _seq_and_kind(I, v, node, allow=("list", "tuple")):
     sv = z3.simplify(v)
     cn = V.ctor_name(sv)
     if cn == "list":
@@ -621,6 +639,26 @@ def num_term(v, kind):
 
 
 def binop(I, op, a, b, node):
+    da, db = I.ctx.fn_desc(z3.simplify(a)), I.ctx.fn_desc(z3.simplify(b))
+    if da is not None and db is not None and da.kind == "pyset" and db.kind == "pyset" and \
+            isinstance(op, (ast.BitOr, ast.BitAnd, ast.Sub)):
+        # literal sets: element equality must be decidable syntactically
+        xs, ys = [z3.simplify(x) for x in da.payload], [z3.simplify(y) for y in db.payload]
+
+        def member(e, coll):
+            hits = [z3.simplify(V.py_eq(e, c)) for c in coll]
+            if any(z3.is_true(h) for h in hits):
+                return True
+            if all(z3.is_false(h) for h in hits):
+                return False
+            raise Unsupported("set operation on elements whose equality is not decided syntactically", node)
+        if isinstance(op, ast.BitOr):
+            out = list(xs) + [y for y in ys if not member(y, xs)]
+        elif isinstance(op, ast.BitAnd):
+            out = [x for x in xs if member(x, ys)]
+        else:
+            out = [x for x in xs if not member(x, ys)]
+        return I.ctx.fn_val(FnDesc("pyset", out, name="set"))
     ka, kb = _kind(I, a, "lhs"), _kind(I, b, "rhs")
     sa, sb = z3.simplify(a), z3.simplify(b)
     if ka in ("int", "real") and kb in ("int", "real"):
@@ -1448,6 +1486,21 @@ def m_str_encode(I, s, args, kwargs, node):
     return V.VBytes(utf8_enc(Val.s(s)))
 
 
+def _bytes_arg(I, a, node):
+    sa = z3.simplify(a)
+    if V.ctor_name(sa) == "bytes" or entails(I, V.is_bytes(sa)):
+        return Val.bs(sa)
+    raise Unsupported("bytes method with a non-bytes argument", node)
+
+
+def m_bytes_endswith(I, b, args, kwargs, node):
+    return V.VBool(z3.SuffixOf(_bytes_arg(I, args[0], node), Val.bs(b)))
+
+
+def m_bytes_startswith(I, b, args, kwargs, node):
+    return V.VBool(z3.PrefixOf(_bytes_arg(I, args[0], node), Val.bs(b)))
+
+
 def m_bytes_decode(I, b, args, kwargs, node):
     x = z3.simplify(Val.bs(b))
     enc = args[0] if args else kwargs.get("encoding", V.VStr("utf-8"))
@@ -1461,6 +1514,15 @@ def m_bytes_decode(I, b, args, kwargs, node):
         I.throw("UnicodeDecodeError", "codec can't decode")
     if z3.is_app(x) and x.decl().name() == "utf8_enc":
         return V.VStr(x.arg(0))            # decoding the utf-8 encoding of a str gives the str back
+    errs = args[1] if len(args) > 1 else kwargs.get("errors")
+    if errs is not None:
+        pe2 = pystr(Val.s(z3.simplify(errs))) if V.ctor_name(z3.simplify(errs)) == "str" else None
+        if pe2 in ("replace", "ignore", "backslashreplace", "surrogateescape"):
+            # a lenient one-shot decode never raises: a total (uninterpreted) function of these bytes ALONE - unlike the
+            # incremental decoder it knows nothing of bytes seen before or after
+            return V.VStr(utf8_dec_lenient(z3.StringVal(pe2), x))
+        if pe2 != "strict":
+            raise Unsupported("bytes.decode with a symbolic / unknown errors argument", node)
     if I.choose(utf8_ok(x), "utf8_ok"):
         return V.VStr(utf8_dec(x))
     I.throw("UnicodeDecodeError", "invalid utf-8")
@@ -1491,6 +1553,38 @@ def m_str_join(I, s, args, kwargs, node):
 
 
 def m_str_format(I, s, args, kwargs, node):
+    tmpl = pystr(Val.s(s))
+    if tmpl is not None:
+        import string
+        try:
+            fields = list(string.Formatter().parse(tmpl))
+        except ValueError:
+            fields = None
+        if fields is not None and all((f[2] in (None, "")) and (f[3] is None) for f in fields):
+            parts, auto = [], 0
+            ok = True
+            for lit, name, _spec, _conv in fields:
+                if lit:
+                    parts.append(z3.StringVal(lit))
+                if name is None:
+                    continue
+                if name == "":
+                    idx, auto = auto, auto + 1
+                    v = args[idx] if idx < len(args) else None
+                elif name.isdigit():
+                    v = args[int(name)] if int(name) < len(args) else None
+                elif name.isidentifier():
+                    v = kwargs.get(name)
+                else:
+                    ok = False
+                    break
+                if v is None:
+                    I.throw("IndexError" if (name == "" or name.isdigit()) else "KeyError", "format field missing")
+                parts.append(to_str(I, v))
+            if ok:
+                if not parts:
+                    return V.VStr("")
+                return V.VStr(z3.simplify(z3.Concat(*parts)) if len(parts) > 1 else parts[0])
     return V.VStr(format_of(Val.s(s), V.seq_of(args)))
 
 
@@ -1774,7 +1868,38 @@ def b_dict(I, args, kwargs, node):
         if V.ctor_name(sv) == "dict" or (V.ctor_name(sv) is None and I.choose(V.is_dict(sv), "dict_arg")):
             d = Val.dict(V.fresh_dict_id(), Val.dkeys(sv), Val.dvals(sv), Val.dsize(sv))
         else:
-            raise Unsupported("dict() of a non-dict", node)
+            # dict(x) for a non-mapping: numbers / None / bool are not iterable (TypeError); an empty str / list / tuple
+            # gives {}; a non-empty one raises unless every element is a pair (over-approximated: TypeError, ValueError
+            # or some dict)
+            cn = V.ctor_name(sv)
+            if cn is None:
+                if I.choose(z3.Or(V.is_int(sv), V.is_real(sv), V.is_bool(sv), V.is_none(sv)), "dict_arg_scalar"):
+                    I.throw("TypeError", "object is not iterable")
+                if I.choose(V.is_str(sv), "dict_arg_str"):
+                    cn = "str"
+                elif I.choose(V.is_list(sv), "dict_arg_list"):
+                    cn = "list"
+                elif I.choose(V.is_tuple(sv), "dict_arg_tuple"):
+                    cn = "tuple"
+                else:
+                    raise Unsupported("dict() of an object", node)
+            if cn in ("int", "real", "bool", "none"):
+                I.throw("TypeError", "object is not iterable")
+            if cn not in ("str", "list", "tuple"):
+                raise Unsupported(f"dict() of a {cn}", node)
+            ln = z3.Length({"str": Val.s, "list": Val.items, "tuple": Val.titems}[cn](sv))
+            if not I.choose(ln == 0, "dict_arg_empty"):
+                if cn == "str":
+                    if I.choose(ln == 2, "dict_arg_two_chars_first_elem"):
+                        pass          # "ab" is one element of length 1 - still a ValueError; kept for clarity
+                    I.throw("ValueError", "dictionary update sequence element #0 has length 1; 2 is required")
+                c = I.choose_n(3, "dict_of_sequence")
+                if c == 0:
+                    I.throw("TypeError", "cannot convert dictionary update sequence element #0 to a sequence")
+                if c == 1:
+                    I.throw("ValueError", "dictionary update sequence element has the wrong length")
+                d = I.fresh("dict_of_pairs")
+                I.assume(z3.And(V.is_dict(d), Val.dsize(d) >= 0, Val.dsize(d) <= ln, Val.did(d) >= 1_000_000))
     for k, v in kwargs.items():
         d = set_item(I, d, V.VStr(k), v, node)
     return d
@@ -1910,8 +2035,15 @@ def b_sorted(I, args, kwargs, node):
     raise Unsupported("sorted()", node)
 
 
+def b_object(I, args, kwargs, node):
+    """object(): a fresh featureless object (typically a sentinel compared by identity)"""
+    if args or kwargs:
+        I.throw("TypeError", "object() takes no arguments")
+    return I.new_object(I.ctx.cls_named("object"), {})
+
+
 BUILTINS = {
-    "getattr": b_getattr, "hasattr": b_hasattr, "setattr": b_setattr, "isinstance": b_isinstance,
+    "object": b_object, "getattr": b_getattr, "hasattr": b_hasattr, "setattr": b_setattr, "isinstance": b_isinstance,
     "len": b_len, "str": b_str, "repr": b_repr, "int": b_int, "float": b_float, "bool": b_bool,
     "callable": b_callable, "type": b_type, "list": b_list, "tuple": b_tuple, "dict": b_dict, "set": b_set,
     "all": b_all, "any": b_any, "min": b_min, "max": b_max, "enumerate": b_enumerate, "range": b_range,
